@@ -37,6 +37,13 @@
       the accesses of its loads and leaves the context alone (captures are not registered); a whole
       `match` statement in the fragment has every access of its subject, pattern loads, guards and
       bodies reported;
+    * `C01_star_*` (round 4): the root context a file's functions are analysed in is
+      `compile_root_context(ast).expand_starred_imports()`; for ALL projects the expansion (`Pipeline2.expandLoop`,
+      `Context.add` per re-exported symbol) keeps every binding the file's own root context has, so the custom
+      analyser a call to `getattr` / `hasattr` / `setattr` / `delattr` / `sorted` / `defaultdict` is dispatched to is
+      the same with and without `from <local module> import *` — although every star-imported module offers its
+      own builtins as `Import("<module>.getattr")` …; `C01_test_star_overwrite_would_lose_plugins`: a plain
+      overwrite in place of `Context.add` would lose them;
   Not proved: the lower bound over a fragment that also contains calls, assignments, loops, …
   (`C01_partial` of DESIGN §5 with the complete `dropped` table); the per-constructor facts
   above are its leaves.
@@ -47,6 +54,7 @@ import RattrProofs.Lemmas.VisitCover
 import RattrProofs.Lemmas.FileAnalyser
 import RattrProofs.Lemmas.C01Callables
 import RattrProofs.Lemmas.Match
+import RattrProofs.Lemmas.C01Star
 import RattrModel.Generated.C01
 
 namespace Rattr.C01
@@ -926,5 +934,149 @@ theorem C01_test_match_route :
 example : routeCases.all (fun c => simpleL (Match.loads c.pat)) = true ∧
     frag (dirtyKeys env0 (S "m") root1) ⟨true, true, true⟩ (att (nm "cmd") "kind") = true ∧
     fragL (dirtyKeys env0 (S "m") root1) ⟨true, true, true⟩ (Match.casesParts routeCases) = true := by decide +kernel
+
+end Rattr.C01
+
+/-! ## Star imports: the root context a function is analysed in after `expand_starred_imports`
+(RattrModel/Pipeline2.lean `expandLoop` / `rootOf` / `analyseAt`; correspondence: py/props/c01star.py,
+ops `star_root` / `star_file`)
+
+`compile_root_context` puts the Python builtins into EVERY module's root context, also into the one
+`expand_starred_imports` compiles for a star-imported local module, and the expansion offers every
+symbol of that context to the importing file as an `Import("<module>.<name>")`. The custom analysers
+of the getattr family / `sorted` / `defaultdict` are found through the importing file's OWN bindings
+of those names (`custom_analyser_for_target` → `get_call_target` → `plugins.get_analyser`). The
+theorems below say that the expansion — the model's `Context.add`, for ALL projects, files, queues —
+never changes what an already bound name denotes, hence never changes which custom analyser a call
+is dispatched to. -/
+
+namespace Rattr.C01
+open Rattr Rattr.FnA Rattr.Strs Rattr.AccessSpec Rattr.RootCtx Rattr.Pipeline2
+
+/-- one `self.add(Import(name=symbol.name, …))` of the expansion keeps every bound plain name. -/
+theorem C01_star_symbol_keeps_bound (P : Project) (q : Str) (c : Context) (y : Sym) (x : Str) (v : Sym)
+    (hx : x.getLast? ≠ some '*') (h : Context.get? c x = some v) :
+    Context.get? (addStarSym P q c y) x = some v := C01Star.get?_addStarSym_of_bound P q c y x v hx h
+
+/-- the whole BFS over the star-imported files (any fuel, queue, `seen`): what the importing
+context binds before is what it binds afterwards. -/
+theorem C01_star_expansion_keeps_bound (P : Project) (fuel : Nat) (queue : List Sym) (seen : List Str)
+    (s r : St) (x : Str) (v : Sym) (hx : x.getLast? ≠ some '*')
+    (h : expandLoop P fuel queue seen s = .ok r) (hb : Context.get? s.ctx x = some v) :
+    Context.get? r.ctx x = some v := C01Star.expandLoop_keeps P x v hx fuel queue seen s r h hb
+
+/-- `compile_root_context(ast).expand_starred_imports()` of a file: every name its own root context
+binds (builtins, its imports, its definitions) keeps its symbol. -/
+theorem C01_star_root_keeps_bound (P : Project) (f : SrcFile) (r0 r : St) (x : Str) (v : Sym)
+    (hx : x.getLast? ≠ some '*')
+    (h0 : RootCtx.compile (factsOf P f) P.builtins f.body = .ok r0) (h : rootOf P f = .ok r)
+    (hb : Context.get? r0.ctx x = some v) : Context.get? r.ctx x = some v :=
+  C01Star.rootOf_keeps P f r0 r x v hx h0 h hb
+
+/-- a callee spelled as a plain name -/
+def plainCallee (callee : Str) : Bool :=
+  removeChar (withoutCallBrackets callee) '*' == callee && !startsWith callee ['@'] &&
+    !containsSub callee (lit "[]") && callee.getLast? != some '*'
+
+/-- … hence the custom analyser a call to a plain bound name is dispatched to
+(`custom_analyser_for_target`) is the same before and after the star expansion. -/
+theorem C01_star_keeps_plugin_dispatch (P : Project) (f : SrcFile) (r0 r : St) (mn callee : Str) (t : Sym) (b : Bool)
+    (hp : plainCallee callee = true)
+    (h0 : RootCtx.compile (factsOf P f) P.builtins f.body = .ok r0) (h : rootOf P f = .ok r)
+    (hb : Context.get? r0.ctx callee = some t) :
+    analyserFor P.env mn (Context.getCallTarget P.env.ctxEnv r.ctx callee b false).1 = analyserFor P.env mn (some t) := by
+  simp only [plainCallee, Bool.and_eq_true, beq_iff_eq, Bool.not_eq_true', bne_iff_ne, ne_eq] at hp
+  obtain ⟨⟨⟨h1, h2⟩, h3⟩, h4⟩ := hp
+  rw [C01Star.getCallTarget_bound _ _ _ t b false h1 h2 h3 (C01Star.rootOf_keeps P f r0 r callee t h4 h0 h hb)]
+
+/-- the five builtins with a custom analyser -/
+def builtinPlugins : List Str := [S "getattr", S "hasattr", S "setattr", S "delattr", S "sorted"]
+
+/-- In particular: in a file whose own root context binds `getattr` / `hasattr` / `setattr` / `delattr` /
+`sorted` to the builtin, a call to it is handled by its custom analyser after ANY star expansion — whatever the
+star-imported modules contain (their own builtins, a `def getattr`, further stars). -/
+theorem C01_star_builtin_plugins_dispatched (P : Project) (f : SrcFile) (r0 r : St) (mn n : Str) (b : Bool)
+    (hn : n ∈ builtinPlugins) (ha : P.env.analysers.contains n = true)
+    (h0 : RootCtx.compile (factsOf P f) P.builtins f.body = .ok r0) (h : rootOf P f = .ok r)
+    (hb : Context.get? r0.ctx n = some (builtinSym n)) :
+    analyserFor P.env mn (Context.getCallTarget P.env.ctxEnv r.ctx n b false).1 = some n := by
+  have hp : plainCallee n = true := by
+    simp only [builtinPlugins, List.mem_cons, List.not_mem_nil, or_false] at hn
+    rcases hn with rfl | rfl | rfl | rfl | rfl <;> decide
+  rw [C01_star_keeps_plugin_dispatch P f r0 r mn n (builtinSym n) b hp h0 h hb]
+  have ha' : n ∈ P.env.analysers := by simpa using ha
+  simp [analyserFor, builtinSym, ha']
+
+/-! ### kernel-evaluated project: `helpers.py` + `target.py` with `from helpers import *` -/
+
+def starAlias : Alias := ⟨['*'], none⟩
+
+/-- `helpers.py`: `def normalise(value): return value.strip` -/
+def helpersFile : SrcFile :=
+  { origin := S "/p/helpers.py", derived := some (S "helpers"),
+    body := [.funcDef (S "normalise") ⟨[], [S "value"], none, [], none⟩ [.ret [att (nm "value") "strip"]] [] false] }
+
+/-- `target.py`: `from helpers import *` / `def configure(obj, src): setattr(obj, "mode", src.mode);
+delattr(obj.cache, "stale"); return getattr(src.inner, "label")` -/
+def starTarget : SrcFile :=
+  { origin := S "target.py", derived := some (S "target"),
+    body := [.importFrom (some (S "helpers")) 0 [starAlias] [] false true,
+             .funcDef (S "configure") ⟨[], [S "obj", S "src"], none, [], none⟩
+               [expr (call (nm "setattr") [nm "obj", .strConst (S "mode"), att (nm "src") "mode"]),
+                expr (call (nm "delattr") [att (nm "obj") "cache", .strConst (S "stale")]),
+                .ret [call (nm "getattr") [att (nm "src") "inner", .strConst (S "label")]]] [] false] }
+
+def starProject : Project :=
+  { env := env0, builtins := builtinPlugins ++ [S "list"],
+    mods := [(S "helpers", { originFound := true, modExists := true })],
+    quals := [(S "helpers", { module := some (S "helpers"), origin := some (S "/p/helpers.py") })],
+    target := starTarget, files := [helpersFile] }
+
+def boundTo (r : Res) (x : String) : Option (SymKind × Str) :=
+  match r with
+  | .ok s => (Context.get? s.ctx (S x)).map fun t => (t.kind, t.qual)
+  | _ => none
+
+def entryOf (o : FileA.FOut) (fn : String) : Option (List Str × List Str × List Str × List Str) :=
+  match o with
+  | .ok s => (s.ir.find? fun p => p.1.name == S fn).map fun p =>
+      (p.2.gets.map (·.full), p.2.sets.map (·.full), p.2.dels.map (·.full), p.2.calls.map (·.name))
+  | _ => none
+
+/-- TEST (kernel evaluation of the model of the whole route: root context of `target.py`, the walk over
+`helpers.py`, `Context.add` per re-exported symbol, the file walk): `normalise` arrives as
+`Import("helpers.normalise")`, `getattr` stays the builtin although `helpers`' root context offers
+`helpers.getattr`, and `configure` has the set `obj.mode`, the del `obj.cache.stale` and the get
+`src.inner.label` (the value argument `src.mode` of `setattr` is the known `C01_cex_xattr_extra_argument`). -/
+theorem C01_test_star_project :
+    boundTo (rootOf starProject starTarget) "normalise" = some (.import_, S "helpers.normalise") ∧
+    boundTo (rootOf starProject starTarget) "getattr" = some (.builtin, []) ∧
+    boundTo (rootOf starProject starTarget) "setattr" = some (.builtin, []) ∧
+    entryOf (analyseAt starProject starTarget) "configure" =
+      some ([S "obj", S "obj.cache", S "src.inner.label", S "src.inner", S "src"],
+            [S "obj.mode"], [S "obj.cache.stale"], []) := by decide +kernel
+
+/-- the expansion with `symbol_table.add` (plain overwrite) in place of `Context.add` — NOT the code -/
+def overwriteStarSym (P : Project) (q : Str) (c : Context) (y : Sym) : Context :=
+  let n := pyName y
+  let qual := q ++ '.' :: n
+  setSym c { kind := .import_, name := if n = ['*'] then qual ++ ".*".toList else n, callable := true,
+             iface := y.iface, qual := qual, modExists := (Dict.get? P.mods qual).getD {} |>.modExists }
+
+/-- TEST: the theorems above are about `Context.add` and nothing weaker — with a plain overwrite the
+same project rebinds `getattr` to `Import("helpers.getattr")`, for which no custom analyser is registered. -/
+theorem C01_test_star_overwrite_would_lose_plugins :
+    (match RootCtx.compile (factsOf starProject helpersFile) starProject.builtins helpersFile.body,
+           RootCtx.compile (factsOf starProject starTarget) starProject.builtins starTarget.body with
+     | .ok h, .ok t =>
+       let c := (scopeSyms h.ctx).foldl (overwriteStarSym starProject (S "helpers")) t.ctx
+       ((Context.get? c (S "getattr")).map fun s => (s.kind, s.qual),
+        analyserFor env0 (S "target") (Context.getCallTarget env0.ctxEnv c (S "getattr") false false).1)
+     | _, _ => (none, none)) = (some (.import_, S "helpers.getattr"), none) := by decide +kernel
+
+/-- the hypotheses of `C01_star_builtin_plugins_dispatched` hold for the project above. -/
+example : (match RootCtx.compile (factsOf starProject starTarget) starProject.builtins starTarget.body with
+    | .ok r0 => builtinPlugins.all fun n => Context.get? r0.ctx n == some (builtinSym n)
+    | _ => false) = true ∧ builtinPlugins.all (fun n => starProject.env.analysers.contains n) = true := by decide +kernel
 
 end Rattr.C01
